@@ -2,53 +2,67 @@
 
 spec  : WignerSeitz.tla (exact replica selection under an integer Gram matrix with the code's search box and tolerance,
         q_to_R / remap_XX_R / exclude_zeros / conj_XX_R / evaluation at the mesh points in Z[zeta12]),
-        MC_WignerSeitz.tla (every shift / mesh / Gram matrix / tolerance), MC_WSRoundTrip.tla (the calls set_Rvec ->
-        set_fft_q_to_R -> q_to_R and set_Rvec -> do_ws_dist as a state machine, all orders of the mesh points, scalar / vector /
-        tensor Hermitian data)
-bind  : spec -> code: every enumerated input is executed on the real Rvectors.set_Rvec (iRvec_list / Ndegen_list / shift_index /
-        iRvec compared exactly), q_to_R (fftw, numpy), conj_XX_R, R_to_k on the mesh (fftw, numpy, slow, k-list), System_R.do_ws_dist
-        with exact expected values from the TLC states (1e-9);
-        code -> spec: seeded random executions (3-D meshes, 1-3 Wannier functions, centres also outside the search-box
-        precondition, all tolerances) are recorded and validated by TLC against WignerSeitzRec.tla.
+        MC_WignerSeitz.tla (every shift / mesh / Gram matrix / tolerance; shifts in quarters or thirds), MC_WSRoundTrip.tla (the
+        calls set_Rvec -> set_fft_q_to_R -> q_to_R and set_Rvec -> do_ws_dist as a state machine, orders of the mesh points,
+        scalar / vector / tensor Hermitian data)
+bind  : spec -> code: every enumerated, determined input is executed on the real Rvectors.set_Rvec and the statement is evaluated on
+        the returned replica sets (weights per mesh class, (b,a) = -(a,b), no duplicates, iRvec covers the replicas; the sets
+        themselves are compared exactly where the statement fixes them: inside the search-box precondition, tight tolerance),
+        q_to_R (fftw, numpy), X(-R) = X(R)^+ (computed by the harness), conj_XX_R, R_to_k on the mesh (fftw, numpy, slow, k-list),
+        System_R.do_ws_dist with exact expected values from the TLC states;
+        code -> spec: seeded random executions (3-D meshes, 1-3 Wannier functions, centres in thirds / quarters / sixths /
+        twelfths, also outside the search-box precondition, all tolerances) are recorded and validated by TLC against WignerSeitzRec.tla.
 """
 import copy
 import math
+import os
 import random
-import time
+import warnings
 
 import numpy as np
 
-from .. import tlc, ftable
+from .. import tlc
 from ..common import Report, MachineryError, seed, quiet
 from . import cyclo12 as cy
-from .tbf_common import cyclo_library_check, fast_dump_states, validate_parallel, TOL
+from .tbf_common import (cyclo_library_check, sorted_states, validate_parallel, enumerate_states, run_tlc, drop_scratch, guarded,
+                         skipped_private, finish_on_error, project_exact, TOL)
 
 PROPS = {
     "C01": dict(level="model_checking",
                 technique="TLC exhaustive on WignerSeitz.tla (exact replica selection and degeneracies under integer Gram matrices, weights, "
-                          "(b,a) = -(a,b), q->R->k identity in Z[zeta12] for all mesh orders and scalar/vector/tensor Hermitian data, do_ws_dist) "
-                          "+ replay of every enumerated input on Rvectors.set_Rvec / q_to_R / conj_XX_R / R_to_k / System_R.do_ws_dist "
-                          "+ TLC validation of recorded executions",
-                text="TLC enumerates integer Gram matrices (1-D, 2-D incl. non-orthogonal, 3-D cubic), meshes, centre shifts in quarters of "
-                     "lattice vectors and tolerances and decides the Wigner-Seitz replicas with the code's search box exactly; it checks that "
-                     "the weights 1/Ndegen add up to one per pair and mesh class, that the R-set of (b,a) is minus that of (a,b) inside the "
-                     "search-box precondition, that q->R->k on the mesh is the identity for every order of the mesh points and scalar, vector "
-                     "and tensor Hermitian data, that X(-R) = X(R)^dagger and that do_ws_dist keeps the mesh values. Every enumerated input is "
-                     "executed on the real code and compared exactly (integers) or to 1e-9 (matrices); random executions are recorded and "
-                     "every clause of WignerSeitzRec is evaluated on them by TLC.",
-                note="lattices are Cholesky factors of integer Gram matrices; centres are quarters; shifts with a distance exactly on the "
-                     "tolerance boundary are excluded by the predicate Ambiguous; Hermiticity of X(R) and the (b,a)/(a,b) symmetry are claimed "
-                     "only inside the search-box precondition (|tau_b - tau_a| <= 1.5 lattice vectors, DESIGN 7.2)",
+                          "(b,a) = -(a,b), q->R->k identity in Z[zeta12] for permuted mesh orders and scalar/vector/tensor Hermitian data, "
+                          "do_ws_dist) + replay of the enumerated inputs on Rvectors.set_Rvec / q_to_R / conj_XX_R / R_to_k / "
+                          "System_R.do_ws_dist + TLC validation of recorded executions",
+                text="TLC enumerates integer Gram matrices (quick: 2-D incl. hexagonal / non-orthogonal with the 1-D problems contained, one "
+                     "3-D non-orthogonal lattice with a 2x1x2 mesh; thorough: also 1-D separately, more 3-D), meshes with 1,2,3,4,6 points "
+                     "per direction, centre shifts in quarters (one configuration in thirds) of lattice vectors and tolerances and decides "
+                     "the Wigner-Seitz replicas with the code's search box exactly; it checks that the weights 1/Ndegen add up to one per "
+                     "pair and mesh class, that the R-set of (b,a) is minus that of (a,b) inside the search-box precondition, that q->R->k on "
+                     "the mesh is the identity for all permutations of meshes with <= ORDALL (4, one config 3) points and three fixed orders "
+                     "of larger meshes and scalar, vector and tensor Hermitian data, that X(-R) = X(R)^dagger and that do_ws_dist keeps the "
+                     "mesh values. Every enumerated input whose floating-point decision is determined is executed on the real code: the "
+                     "statement's clauses are evaluated on the returned sets and matrices (integers exactly, matrices to 1e-8), and the "
+                     "sets are compared with the specification's where the statement fixes them (inside the precondition, tolerance "
+                     "<= 1e-3). Random executions are recorded and every clause of WignerSeitzRec is evaluated on them by TLC.",
+                note="lattices are Cholesky factors of integer Gram matrices; shifts with a distance on (or, for centres that are not "
+                     "decimal fractions, within the code's decimal rounding of) the tolerance boundary are excluded by the predicates "
+                     "Ambiguous / near; which replicas are kept with a loose tolerance (1/4, 1/2) or outside the search-box precondition "
+                     "(|tau_b - tau_a| <= 1.5 lattice vectors, DESIGN 7.2), which all-zero R-vectors do_ws_dist drops, whether equal shifts "
+                     "share one internal list and whether iRvec holds more than the replicas is not part of the statement (reported as "
+                     "information only); Hermiticity of X(R) and (b,a) = -(a,b) are claimed only inside the precondition; meshes with 5, 7, "
+                     "8 points per direction only in the numeric-only part",
                 ref="DESIGN.md 3.4"),
 }
 
 SS = 4
 TOLS = {1: (1, 1000), 2: (1, 100000), 3: (1, 4), 4: (1, 2)}
+TIGHT = (1, 2)
 WS_INVS = ("WeightsOne", "WeightsTotal", "MinusSymmetry", "BoxSufficient", "InertModeValid", "InertLemma")
 RT_INVS = ("WeightsOne", "MinusSymmetry", "RoundTrip", "InputHermitian", "HermitianXR", "WsDistKeeps")
 TAUS = {(2, 1): [[0, 0, 0], [2, 0, 0]], (2, 2): [[1, 0, 0], [-2, 3, 0]], (2, 3): [[0, 0, 0], [0, 0, 0]], (2, 4): [[0, 0, 0], [2, 2, 0]],
         (2, 5): [[-1, -2, 0], [5, 4, 0]], (2, 6): [[0, 0, 0], [9, 0, 0]], (2, 7): [[0, 0, 0], [2, 2, 2]], (2, 8): [[3, 0, 0], [0, 0, 0]],
         (3, 1): [[0, 0, 0], [2, 0, 0], [0, 2, 0]], (3, 2): [[1, 0, 0], [-2, 3, 0], [2, 2, 0]]}
+CART = {1: (), 3: (3,), 9: (3, 3)}
 
 
 def tau_of(nw, tid):
@@ -76,7 +90,7 @@ def tolf(tid):
 
 
 def ws_cfg(**kw):
-    d = dict(GRAMS="{111444}", MESHES="{211}", TOLS="{1}", DIM=2, DMAX=6, STEP=2, BOXDIM=2, LEMMADIM=2, BIGBOX=0, WrongSign="FALSE")
+    d = dict(GRAMS="{111444}", MESHES="{211}", TOLS="{1}", DIM=2, DMAX=6, STEP=2, BOXDIM=2, LEMMADIM=2, BIGBOX=0, WrongSign="FALSE", SS=4)
     d.update(kw)
     return ("SPECIFICATION Spec\nCONSTANTS\n" + "".join(f"  {k} = {v}\n" for k, v in d.items()) +
             "".join(f"INVARIANT {i}\n" for i in WS_INVS) + "CHECK_DEADLOCK FALSE\n"), d
@@ -84,61 +98,197 @@ def ws_cfg(**kw):
 
 def rt_cfg(**kw):
     d = dict(GRAMS="{111444}", MESHES="{211}", TOLS="{1}", NWS="{1, 2}", TAUIDS="{1}", BOXDIM=2, ORDALL=4, NCS="{1}", DATAMODE='"basis"',
-             NDENSE=1, NoWeights="FALSE")
+             NDENSE=1, NoWeights="FALSE", SS=4)
     d.update(kw)
     return ("SPECIFICATION Spec\nCONSTANTS\n" + "".join(f"  {k} = {v}\n" for k, v in d.items()) +
             "".join(f"INVARIANT {i}\n" for i in RT_INVS) + "CHECK_DEADLOCK FALSE\n"), d
 
 
+# ---------------------------------------------------------------- the statement, evaluated by the harness on the code's results
+def in_search_box(d, S):
+    return all(2 * abs(x) <= 3 * S for x in d)
+
+
+_BOX = np.array([[i, j, k] for i in range(-3, 4) for j in range(-3, 4) for k in range(-3, 4)], dtype=np.int64)
+
+
+def undetermined_margin(G, N, S, delta, tol_signed):
+    """how far the floating-point decision `abs(dist - dist_min) < tolerance` of the code is from flipping for the shift delta / S:
+    min |dist - dist_min - tol| over all candidates of all mesh classes (exact integers under the square root), minus twice the
+    displacement of the shift by the code's decimal rounding of the centres (np.round(shift, ceil(-log10 tol) + 1); 8 digits in
+    the legacy mode tol < 0).  Zero for quarters.  The input is `near` (undetermined) when the result is below 1e-9."""
+    tol = abs(tol_signed)
+    digits = 8 if tol_signed < 0 else int(np.ceil(-np.log10(tol))) + 1
+    Gm = np.array(G, dtype=np.int64)
+    Nn = np.array(N, dtype=np.int64)
+    r = np.array([[i, j, k] for i in range(N[0]) for j in range(N[1]) for k in range(N[2])], dtype=np.int64)
+    v = S * (r[:, None, :] + Nn[None, None, :] * _BOX[None, :, :]) + np.array(delta, dtype=np.int64)[None, None, :]
+    q = np.einsum('kti,ij,ktj->kt', v, Gm, v)
+    dist = np.sqrt(q.astype(float)) / S
+    g = dist - dist.min(axis=1, keepdims=True)
+    margin = float(np.abs(g - tol).min())
+    sr = np.array(delta, dtype=float) / S
+    e = float(np.linalg.norm((np.round(sr, digits) - sr) @ lattice_of(G)))
+    return margin - 2 * e
+
+
+def weights_ok(pset, N):
+    """per mesh class the weights 1/Ndegen add up to one: the class is non-empty and Ndegen = size of the class"""
+    cls = {}
+    for R, nd in pset:
+        cls.setdefault(tuple(x % n for x, n in zip(R, N)), []).append(nd)
+    return len(cls) == N[0] * N[1] * N[2] and all(all(nd == len(v) for nd in v) for v in cls.values())
+
+
+def minus_set(pset):
+    return {(tuple(-x for x in R), nd) for R, nd in pset}
+
+
+def harness_conj(X, Rlist):
+    """X(R) -> X(-R)^dagger, zero where -R is not in the list (what conj_XX_R is documented to do), computed by the harness"""
+    idx = {R: i for i, R in enumerate(Rlist)}
+    out = np.zeros(np.shape(X), dtype=complex)
+    for i, R in enumerate(Rlist):
+        j = idx.get(tuple(-x for x in R))
+        if j is not None:
+            out[i] = np.swapaxes(X[j], 0, 1).conj()
+    return out
+
+
+def mesh_values(Rlist, X, N):
+    """sum_R X(R) exp(2 pi i p.R / N) at every mesh point p -> array (nk, ...)"""
+    p = np.array([[i, j, k] for i in range(N[0]) for j in range(N[1]) for k in range(N[2])], dtype=float) / np.array(N, dtype=float)
+    ph = np.exp(2j * np.pi * (p @ np.array(Rlist, dtype=float).reshape(-1, 3).T))
+    X = np.asarray(X)
+    if len(Rlist) == 0:
+        return np.zeros((len(p),) + X.shape[1:], dtype=complex)
+    return (ph @ X.reshape(len(Rlist), -1)).reshape((len(p),) + X.shape[1:])
+
+
 # ---------------------------------------------------------------- the real code
-def real_set_rvec(G, N, tau, tol, lattice=None):
+def real_set_rvec(G, N, tau, tol, S=SS, lattice=None):
     from wannierberri.fourier.rvectors import Rvectors
-    rv = Rvectors(lattice=lattice_of(G) if lattice is None else lattice, shifts_left_red=np.array(tau, dtype=float) / SS)
+    rv = Rvectors(lattice=lattice_of(G) if lattice is None else lattice, shifts_left_red=np.array(tau, dtype=float) / S)
     with quiet():
         rv.set_Rvec(mp_grid=np.array(N), ws_tolerance=tol)
     return rv
 
 
-def pair_set(rv, a, b):
-    ish = int(rv.shift_index[a, b])
-    Rs = [tuple(int(x) for x in R) for R in rv.iRvec_list[ish]]
-    nd = [int(x) for x in rv.Ndegen_list[ish]]
-    return list(zip(Rs, nd))
+def irvec_of(rv):
+    return [tuple(int(x) for x in R) for R in rv.iRvec]
 
 
-def compare_rvec(rep, rv, W, tau, det, count):
-    """exact comparison of iRvec_list / Ndegen_list / shift_index / iRvec with the specification's sets; W: delta -> {(R, nd)}"""
-    nw = len(tau)
-    ok = True
-    union = set()
+def observed_sets(rv, N, nw):
+    """the replica sets seen through the public transform only: the data NK * delta(k = 0) * (all-ones matrix) has the constant 1 on the
+    R grid, so q_to_R returns 1 / Ndegen_ab(R) on the replicas of the pair (a, b) and 0 elsewhere (a replica listed twice is not visible)"""
+    order = np.array([[i, j, k] for i in range(N[0]) for j in range(N[1]) for k in range(N[2])], dtype=float)
+    nk = len(order)
+    data = np.zeros((nk, nw, nw), dtype=complex)
+    data[0] = nk
+    with quiet():
+        rv.set_fft_q_to_R(kpt_red=order / np.array(N, dtype=float), fftlib="numpy")
+        XR = np.asarray(rv.q_to_R(data))
+    Rl = irvec_of(rv)
+    out = {}
     for a in range(nw):
         for b in range(nw):
-            d = tuple(tau[b][j] - tau[a][j] for j in range(3))
-            got = pair_set(rv, a, b)
+            out[(a, b)] = [(R, int(round(1.0 / XR[i, a, b].real))) for i, R in enumerate(Rl) if abs(XR[i, a, b]) > 1e-9]
+    return out
+
+
+def replica_sets(rep, rv, N, nw):
+    """{(a, b): [(R, Ndegen), ...]} of a Rvectors object after set_Rvec; through iRvec_list / Ndegen_list / shift_index (the state the
+    property names) when they exist, otherwise observed through q_to_R.  -> (sets, dedup) where dedup tells whether pairs share an
+    internal list exactly when their shifts are equal (information only)"""
+    try:
+        sidx = np.asarray(rv.shift_index)
+        out = {}
+        for a in range(nw):
+            for b in range(nw):
+                ish = int(sidx[a, b])
+                out[(a, b)] = list(zip([tuple(int(x) for x in R) for R in rv.iRvec_list[ish]], [int(x) for x in rv.Ndegen_list[ish]]))
+        return out, sidx
+    except (AttributeError, TypeError, IndexError, KeyError) as ex:
+        skipped_private(rep, "Rvectors.iRvec_list/Ndegen_list/shift_index (replicas observed through q_to_R instead)", ex)
+    return observed_sets(rv, N, nw), None
+
+
+class Stats:
+    def __init__(self):
+        self.pairs = self.exact_pairs = self.nonstrict_differ = self.near = self.not_dedup = self.extra_irvec = 0
+        self.min_margin = float("inf")
+
+
+def check_rvec(rep, rv, W, tau, G, N, S, tid, tol, det, st):
+    """the statement on the replica sets of the real set_Rvec; W: shift -> {(R, nd)} decided by the specification (may lack shifts).
+    -> (ok, matches, sets): ok = no violation; matches = the code's sets equal the specification's for every pair (then the exact
+    expected matrices of the TLC state apply); sets = the code's replica sets per pair"""
+    nw = len(tau)
+    done, res = guarded(rep, "set_Rvec:replica_sets", det, lambda: replica_sets(rep, rv, N, nw))
+    if not done:
+        return False, False, None
+    sets, sidx = res
+    ok = matches = True
+    union = set()
+    shift = {(a, b): tuple(tau[b][j] - tau[a][j] for j in range(3)) for a in range(nw) for b in range(nw)}
+    margins = {}
+    for a in range(nw):
+        for b in range(nw):
+            d = shift[(a, b)]
+            got = sets[(a, b)]
+            gs = set(got)
             union |= {R for R, _ in got}
+            st.pairs += 1
+            if d not in margins:
+                margins[d] = undetermined_margin(G, N, S, d, tol)
+                if margins[d] >= 1e-9:
+                    st.min_margin = min(st.min_margin, margins[d])
+            near = margins[d] < 1e-9
+            st.near += near
+            if len(gs) != len(got):
+                ok = False
+                rep.violation("set_Rvec:replica_listed_twice", dict(det, pair=[a, b], shift_times_S=list(d), got=sorted(got)))
+            if not weights_ok(gs, N):
+                ok = False
+                rep.violation("set_Rvec:weights", dict(det, pair=[a, b], shift_times_S=list(d), got=sorted(got),
+                                                      what="per mesh class the weights 1/Ndegen must add up to one"))
             if d in W:
                 exp = {(tuple(R), n) for R, n in W[d]}
-                count[0] += 1
-                if len(set(got)) != len(got) or set(got) != exp:
-                    ok = False
-                    rep.violation("set_Rvec:replicas", dict(det, pair=[a, b], shift_times_4=list(d), got=sorted(got), expected=sorted(exp)))
-            for c in range(nw):
-                for e in range(nw):
-                    d2 = tuple(tau[e][j] - tau[c][j] for j in range(3))
-                    if (rv.shift_index[a, b] == rv.shift_index[c, e]) != (d == d2):
+                if gs != exp:
+                    matches = False
+                    if tid in TIGHT and in_search_box(d, S) and not near:
                         ok = False
-                        rep.violation("set_Rvec:shift_index", dict(det, pairs=[[a, b], [c, e]], shift_index=rv.shift_index.tolist()))
-    got_u = [tuple(int(x) for x in R) for R in rv.iRvec]
-    if len(set(got_u)) != len(got_u) or set(got_u) != union:
+                        rep.violation("set_Rvec:replicas", dict(det, pair=[a, b], shift_times_S=list(d), got=sorted(got), expected=sorted(exp)))
+                    else:
+                        st.nonstrict_differ += 1
+                elif tid in TIGHT and in_search_box(d, S) and not near:
+                    st.exact_pairs += 1
+            if in_search_box(d, S) and not near and set(sets[(b, a)]) != minus_set(gs):
+                ok = False
+                rep.violation("set_Rvec:minus_symmetry", dict(det, pair=[a, b], shift_times_S=list(d), set_ab=sorted(got), set_ba=sorted(sets[(b, a)])))
+            for (c, e), d2 in shift.items():
+                if d2 == d and set(sets[(c, e)]) != gs:
+                    ok = False
+                    rep.violation("set_Rvec:equal_shifts_differ", dict(det, pairs=[[a, b], [c, e]], set_1=sorted(got), set_2=sorted(sets[(c, e)])))
+                if sidx is not None and (sidx[a, b] == sidx[c, e]) != (d == d2):
+                    st.not_dedup += 1           # information: equal shifts do not share one internal list (or unequal ones do)
+    done, got_u = guarded(rep, "Rvectors.iRvec", det, lambda: irvec_of(rv))
+    if not done:
+        return False, False, sets
+    if len(set(got_u)) != len(got_u):
         ok = False
-        rep.violation("set_Rvec:iRvec_union", dict(det, iRvec=sorted(got_u), union_of_lists=sorted(union)))
-    return ok
+        rep.violation("set_Rvec:iRvec_duplicates", dict(det, iRvec=sorted(got_u)))
+    if not union <= set(got_u):
+        ok = False
+        rep.violation("set_Rvec:iRvec_misses_replica", dict(det, iRvec=sorted(got_u), missing=sorted(union - set(got_u))))
+    st.extra_irvec += len(set(got_u) - union)
+    return ok, matches, sets
 
 
 def data_array(dat, nk, nw, nc):
     """TLC dat[i][a][b][c] (4-tuples) -> complex array (nk, nw, nw) + cart"""
     A = cy.arr_to_complex(np.array(dat, dtype=float).reshape(nk, nw, nw, nc, 4))
-    return A.reshape((nk, nw, nw) + {1: (), 3: (3,), 9: (3, 3)}[nc])
+    return A.reshape((nk, nw, nw) + CART[nc])
 
 
 def table_array(X, Rlist, nw, nc, scale):
@@ -147,7 +297,11 @@ def table_array(X, Rlist, nw, nc, scale):
     for iR, R in enumerate(Rlist):
         if R in X:
             out[iR] = cy.arr_to_complex(np.array(X[R], dtype=float).reshape(nw, nw, nc, 4))
-    return out.reshape((len(Rlist), nw, nw) + {1: (), 3: (3,), 9: (3, 3)}[nc]) / scale
+    return out.reshape((len(Rlist), nw, nw) + CART[nc]) / scale
+
+
+def nonzero_R(X):
+    return {R for R, m in X.items() if np.any(np.array(m))}
 
 
 class Dev:
@@ -172,64 +326,121 @@ def lcm_of(W):
     return L
 
 
-def all_minus_symmetric(W):
-    return all({(tuple(-x for x in R), n) for R, n in W[d]} == set(W[tuple(-x for x in d)]) for d in W)
+def sets_minus_symmetric(sets):
+    return all(set(sets[(b, a)]) == minus_set(sets[(a, b)]) for (a, b) in sets)
 
 
-def replay_qtor(rep, dev, s, rng, rvcache, count):
+class RvCache:
+    """one real Rvectors (after set_Rvec, with the verdict of check_rvec) per (Gram, mesh, centres, tolerance); the transform states of
+    one input follow each other"""
+
+    def __init__(self):
+        self.key = None
+        self.val = None
+
+    def get(self, rep, s, S, st):
+        G, N, nw, tid = gram_of(s["gram"]), mesh_of(s["mesh"]), s["nw"], s["tolid"]
+        key = (s["gram"], s["mesh"], nw, s["tauid"], tid)
+        if key != self.key:
+            tau = tau_of(nw, s["tauid"])
+            W = {tuple(d): {(tuple(R), n) for R, n in v} for d, v in s["W"].items()}
+            det = dict(gram=G, mp_grid=N, centres_times_S=tau, S=S, ws_tolerance=tolf(tid))
+            done, rv = guarded(rep, "set_Rvec", det, lambda: real_set_rvec(G, N, tau, tolf(tid), S))
+            if done:
+                ok, matches, sets = check_rvec(rep, rv, W, tau, G, N, S, tid, tolf(tid), det, st)
+            else:
+                ok, matches, sets = False, False, None
+            self.key, self.val = key, dict(rv=rv, ok=ok, matches=matches, sets=sets, W=W, conj_bound=False)
+        return self.val
+
+
+def bind_conj(rep, rv, shape, Rlist, det):
+    """conj_XX_R against the harness's own R -> -R, dagger on an array that is NOT Hermitian (an identity / no-op implementation fails)"""
+    r = np.random.RandomState(len(Rlist) * 131 + int(np.prod(shape)))
+    Y = r.randint(-3, 4, size=shape) + 1j * r.randint(-3, 4, size=shape)
+    with warnings.catch_warnings():
+        warnings.simplefilter("ignore")
+        done, got = guarded(rep, "conj_XX_R", det, lambda: np.asarray(rv.conj_XX_R(Y.copy())))
+    if done and (got.shape != Y.shape or np.abs(got - harness_conj(Y, Rlist)).max() > 1e-12):
+        rep.violation("conj_XX_R", dict(det, what="conj_XX_R(Y)[R] differs from Y[-R]^dagger (zero where -R is missing) on a non-Hermitian Y",
+                                        iRvec=[list(R) for R in Rlist][:40]))
+
+
+def replay_qtor(rep, dev, s, S, rng, cache, st):
+    """-> (det, executed)"""
     G, N, nw, tid = gram_of(s["gram"]), mesh_of(s["mesh"]), s["nw"], s["tolid"]
     tau = tau_of(nw, s["tauid"])
     nc, nk = s["nc"], N[0] * N[1] * N[2]
-    W = {tuple(d): {(tuple(R), n) for R, n in v} for d, v in s["W"].items()}
+    det = dict(gram=G, mp_grid=N, centres_times_S=tau, S=S, ws_tolerance=tolf(tid), order=[list(o) for o in s["ord"]], nc=nc)
+    c = cache.get(rep, s, S, st)
+    if not c["ok"]:
+        return det, False
+    rv, W = c["rv"], c["W"]
     L = lcm_of(W)
-    det = dict(gram=G, mp_grid=N, centres_times_4=tau, ws_tolerance=tolf(tid), order=[list(o) for o in s["ord"]], nc=nc)
-    key = (s["gram"], s["mesh"], nw, s["tauid"], tid)
-    if key not in rvcache:
-        rv = real_set_rvec(G, N, tau, tolf(tid))
-        rvcache.clear()
-        rvcache[key] = (rv, compare_rvec(rep, rv, W, tau, det, count))
-    rv, ok = rvcache[key]
-    if not ok:
-        return det
     data = data_array(s["dat"], nk, nw, nc)
-    Rlist = [tuple(int(x) for x in R) for R in rv.iRvec]
-    exp = table_array(s["X"], Rlist, nw, nc, float(nk * L))
+    Rlist = irvec_of(rv)
     kred = (np.array(s["ord"], dtype=float) + np.array([[rng.choice([-1, 0, 0, 2]) * N[j] for j in range(3)] for _ in range(nk)])) / np.array(N)
-    herm = all_minus_symmetric(W)
+    herm = sets_minus_symmetric(c["sets"])
+    exp = None
+    if c["matches"]:
+        missing = nonzero_R(s["X"]) - set(Rlist)
+        if missing:
+            rep.violation("q_to_R:iRvec_misses_nonzero_R", dict(det, missing=sorted(missing)))
+            return det, True
+        exp = table_array(s["X"], Rlist, nw, nc, float(nk * L))
     XRs = {}
     for lib in ("fftw", "numpy"):
-        with quiet():
-            rv.set_fft_q_to_R(kpt_red=kred, fftlib=lib)
-            XR = rv.q_to_R(data.copy())
-        XRs[lib] = XR
-        d = dev.far(XR, exp)
-        if d:
-            rep.violation(f"q_to_R:values:{lib}", dict(det, relative_deviation=d, data=str(data.tolist())[:400]))
-            continue
-        if herm:
+        def call(lib=lib):
             with quiet():
-                d = dev.far(rv.conj_XX_R(XR), XR)
+                rv.set_fft_q_to_R(kpt_red=kred, fftlib=lib)
+                return np.asarray(rv.q_to_R(data.copy()))
+        done, XR = guarded(rep, f"q_to_R:{lib}", det, call)
+        if not done:
+            continue
+        if XR.shape != (len(Rlist),) + data.shape[1:]:
+            rep.violation(f"q_to_R:shape:{lib}", dict(det, got=list(XR.shape), expected=[len(Rlist)] + list(data.shape[1:])))
+            continue
+        XRs[lib] = XR
+        if exp is not None:
+            d = dev.far(XR, exp)
             if d:
-                rep.violation("conj_XX_R", dict(det, relative_deviation=d, fftlib=lib))
-    XR = XRs["numpy"]
+                rep.violation(f"q_to_R:values:{lib}", dict(det, relative_deviation=d, data=str(data.tolist())[:400]))
+                continue
+        if herm:
+            d = dev.far(harness_conj(XR, Rlist), XR)
+            if d:
+                rep.violation(f"hermitian_R:{lib}", dict(det, relative_deviation=d, what="X(-R) = X(R)^dagger violated by the result of q_to_R"))
+    if not c["conj_bound"] and XRs:
+        c["conj_bound"] = True
+        bind_conj(rep, rv, next(iter(XRs.values())).shape, Rlist, det)
+    XR = XRs.get("numpy", XRs.get("fftw"))
+    if XR is None:
+        return det, True
     # back to the mesh: FFT back ends on the mesh itself, and the explicit list in the order of the input
     grid_data = np.zeros_like(data)
     for i, o in enumerate(s["ord"]):
         grid_data[(o[0] * N[1] + o[1]) * N[2] + o[2]] = data[i]
     for lib in ("fftw", "numpy", "slow"):
+        def back(lib=lib):
+            with quiet():
+                rv.set_fft_R_to_k(NK=N, num_wann=nw, fftlib=lib)
+                return np.asarray(rv.R_to_k(XR.copy(), hermitian=False))
+        done, got = guarded(rep, f"R_to_k:{lib}", det, back)
+        if done:
+            d = dev.far(got, grid_data)
+            if d:
+                rep.violation(f"round_trip:{lib}", dict(det, relative_deviation=d, data=str(data.tolist())[:400]))
+
+    def back_list():
         with quiet():
-            rv.set_fft_R_to_k(NK=N, num_wann=nw, fftlib=lib)
-            back = rv.R_to_k(XR.copy(), hermitian=False)
-        d = dev.far(back, grid_data)
+            rv.set_fft_R_to_k(NK=None, num_wann=nw, k_list=kred)
+            return np.asarray(rv.R_to_k(XR.copy(), hermitian=False))
+    done, got = guarded(rep, "R_to_k:k_list", det, back_list)
+    if done:
+        d = dev.far(got, data)
         if d:
-            rep.violation(f"round_trip:{lib}", dict(det, relative_deviation=d, data=str(data.tolist())[:400]))
-    with quiet():
-        rv.set_fft_R_to_k(NK=None, num_wann=nw, k_list=kred)
-        back = rv.R_to_k(XR.copy(), hermitian=False)
-    d = dev.far(back, data)
-    if d:
-        rep.violation("round_trip:k_list", dict(det, relative_deviation=d, data=str(data.tolist())[:400]))
-    return det
+            rep.violation("round_trip:k_list", dict(det, relative_deviation=d, data=str(data.tolist())[:400]))
+    return det, True
 
 
 def sparse_dict(tab, nw, comps):
@@ -241,47 +452,65 @@ def sparse_dict(tab, nw, comps):
     return out
 
 
-def real_do_ws_dist(G, N, tau, tol, old, nw, nc, lattice=None):
+def real_do_ws_dist(G, N, tau, tol, old, nw, nc, S=SS, lattice=None):
     import wannierberri as wb
     mats = {"Ham": sparse_dict(old, nw, None)}
     if nc == 3:
         mats["AA"] = sparse_dict(old, nw, 3)
     with quiet():
         syst = wb.system.System_R.from_sparse(real_lattice=lattice_of(G) if lattice is None else lattice,
-                                              wannier_centers_red=np.array(tau, dtype=float) / SS, matrices=mats)
+                                              wannier_centers_red=np.array(tau, dtype=float) / S, matrices=mats)
         syst.do_ws_dist(mp_grid=[int(x) for x in N], ws_dist_tol=tol)
     return syst
 
 
-def replay_wsdist(rep, dev, s, count):
+def replay_wsdist(rep, dev, s, S, cache, st):
     G, N, nw, tid = gram_of(s["gram"]), mesh_of(s["mesh"]), s["nw"], s["tolid"]
     tau = tau_of(nw, s["tauid"])
     nc = s["nc"]
-    W = {tuple(d): {(tuple(R), n) for R, n in v} for d, v in s["W"].items()}
-    L = lcm_of(W)
-    det = dict(gram=G, mp_grid=N, centres_times_4=tau, ws_dist_tol=tolf(tid), nc=nc)
+    det = dict(gram=G, mp_grid=N, centres_times_S=tau, S=S, ws_dist_tol=tolf(tid), nc=nc)
+    c = cache.get(rep, s, S, st)
+    if not c["ok"]:
+        return det, False
+    L = lcm_of(c["W"])
     old = {tuple(R): m for R, m in s["dat"].items()}
-    syst = real_do_ws_dist(G, N, tau, tolf(tid), old, nw, nc)
+    done, syst = guarded(rep, "do_ws_dist", det, lambda: real_do_ws_dist(G, N, tau, tolf(tid), old, nw, nc, S))
+    if not done:
+        return det, True
     X = {tuple(R): m for R, m in s["X"].items()}
-    got_R = [tuple(int(x) for x in R) for R in syst.rvec.iRvec]
-    if set(got_R) != set(X) or len(set(got_R)) != len(got_R):
-        rep.violation("do_ws_dist:iRvec", dict(det, got=sorted(got_R), expected=sorted(X)))
-        return det
-    exp = table_array(X, got_R, nw, nc, float(L))
-    d = dev.far(syst.get_R_mat("Ham"), exp[:, :, :, 0] if nc == 3 else exp)
-    if d:
-        rep.violation("do_ws_dist:values:Ham", dict(det, relative_deviation=d))
-    if nc == 3:
-        d = dev.far(syst.get_R_mat("AA"), exp)
-        if d:
-            rep.violation("do_ws_dist:values:AA", dict(det, relative_deviation=d))
-    if all_minus_symmetric(W):
-        with quiet():
-            d = dev.far(syst.rvec.conj_XX_R(syst.get_R_mat("Ham")), syst.get_R_mat("Ham"))
-        if d:
-            rep.violation("do_ws_dist:conj_XX_R", dict(det, relative_deviation=d))
-    count[0] += 1
-    return det
+    got_R = irvec_of(syst.rvec)
+    if len(set(got_R)) != len(got_R):
+        rep.violation("do_ws_dist:iRvec_duplicates", dict(det, got=sorted(got_R)))
+        return det, True
+    oldR = sorted(old)
+    old_all = table_array(old, oldR, nw, nc, 1.0)
+    keys = [("Ham", (lambda A: A[:, :, :, 0]) if nc == 3 else (lambda A: A))] + ([("AA", lambda A: A)] if nc == 3 else [])
+    exp_all = None
+    if c["matches"]:
+        missing = nonzero_R(X) - set(got_R)
+        if missing:
+            rep.violation("do_ws_dist:iRvec_misses_nonzero_R", dict(det, got=sorted(got_R), missing=sorted(missing)))
+            return det, True
+        exp_all = table_array(X, got_R, nw, nc, float(L))
+    herm = sets_minus_symmetric(c["sets"])
+    for key, pick in keys:
+        done, M = guarded(rep, f"do_ws_dist:get_R_mat:{key}", det, lambda key=key: np.asarray(syst.get_R_mat(key)))
+        if not done:
+            continue
+        # the statement: the values at the mesh points are kept
+        want = mesh_values(oldR, pick(old_all), N)
+        if M.shape[0] != len(got_R) or dev.far(mesh_values(got_R, M, N), want):
+            rep.violation(f"do_ws_dist:mesh_values:{key}", dict(det, what="sum_R X(R) exp(2 pi i p.R/N) at the mesh points changed", iRvec=sorted(got_R)))
+            continue
+        if exp_all is not None:
+            d = dev.far(M, pick(exp_all))
+            if d:
+                rep.violation(f"do_ws_dist:values:{key}", dict(det, relative_deviation=d))
+        if herm:
+            d = dev.far(harness_conj(M, got_R), M)
+            if d:
+                rep.violation(f"do_ws_dist:hermitian_R:{key}", dict(det, relative_deviation=d))
+    return det, True
 
 
 # ---------------------------------------------------------------- records (code -> spec)
@@ -320,7 +549,9 @@ def dense_hermitian(rng, nk, nw, nc):
     return dat
 
 
-def make_record(rep, rng, thorough):
+def record_input(rng, thorough, forced=False):
+    if forced:      # a degenerate replica pair (R = +-1, Ndegen = 2) and non-zero matrices for certain: needed by the binding self-test
+        return dict(G=[[1, 0, 0], [0, 1, 0], [0, 0, 1]], N=[2, 1, 1], nw=1, S=4, tau=[[0, 0, 0]], tid=1, tol=tolf(1), dim=1)
     dim = rng.choice([1, 2, 2, 3])
     G = random_gram(rng, dim)
     sizes = [1, 2, 3, 4, 6]
@@ -329,36 +560,67 @@ def make_record(rep, rng, thorough):
         if N[0] * N[1] * N[2] <= (12 if thorough else 4):
             break
     nw = rng.choice([1, 2, 2, 3]) if thorough else rng.choice([1, 2, 2])
-    far = rng.random() < 0.15
-    tau = [[(rng.randint(-12, 16) if far else rng.randint(-2, 5)) if j < dim or rng.random() < 0.2 else 0 for j in range(3)] for _ in range(nw)]
     tid = rng.choice([1, 1, 2, 3, 4])
-    rv = real_set_rvec(G, N, tau, tolf(tid) * rng.choice([1, 1, 1, -1]) if tid in (1, 2) else tolf(tid))
-    pairs = [[[list(R), n] for R, n in pair_set(rv, a, b)] for a in range(nw) for b in range(nw)]
-    rec = dict(kind="setrvec", G=G, N=N, S=SS, tol=list(TOLS[tid]), tau=tau, pairs=pairs, iRvec=[[int(x) for x in R] for R in rv.iRvec])
+    # denominators of the centres; with the tolerance 1/1000 the exact comparison of WignerSeitz.tla (CmpTol) stays inside 32 bits
+    # only for S <= 4
+    S = rng.choice([3, 4, 4]) if tid == 1 else rng.choice([3, 4, 4, 6, 12])
+    far = rng.random() < 0.15
+    tau = [[(rng.randint(-3 * S, 4 * S) if far else rng.randint(-(S // 2), S + S // 4)) if j < dim or rng.random() < 0.2 else 0 for j in range(3)]
+           for _ in range(nw)]
+    tol = tolf(tid) * rng.choice([1, 1, 1, -1]) if tid in TIGHT else tolf(tid)
+    return dict(G=G, N=N, nw=nw, S=S, tau=tau, tid=tid, tol=tol, dim=dim)
+
+
+def make_record(rep, rng, thorough, kind, forced=False):
+    """one recorded execution of the wanted kind, or None (input not suited for the kind / the library raised: reported)"""
+    inp = record_input(rng, thorough, forced)
+    G, N, nw, S, tau, tid, tol, dim = (inp[k] for k in ("G", "N", "nw", "S", "tau", "tid", "tol", "dim"))
+    det = dict(gram=G, mp_grid=N, centres_times_S=tau, S=S, ws_tolerance=tol)
+    done, rv = guarded(rep, "set_Rvec", det, lambda: real_set_rvec(G, N, tau, tol, S))
+    if not done:
+        return None
+    done, res = guarded(rep, "set_Rvec:replica_sets", det, lambda: replica_sets(rep, rv, N, nw))
+    if not done:
+        return None
+    sets = res[0]
+    pairs = [[[list(R), n] for R, n in sets[(a, b)]] for a in range(nw) for b in range(nw)]
+    shifts = {tuple(tau[b][j] - tau[a][j] for j in range(3)) for a in range(nw) for b in range(nw)}
+    near = bool(min(undetermined_margin(G, N, S, d, tol) for d in shifts) < 1e-9)
+    rec = dict(kind="setrvec", G=G, N=N, S=S, tol=list(TOLS[tid]), tau=tau, pairs=pairs, iRvec=[list(R) for R in irvec_of(rv)], near=near)
     L = 1
     for p in pairs:
         for _, n in p:
             L = L * n // math.gcd(L, n)
     nk = N[0] * N[1] * N[2]
-    r = rng.random()
-    if r < 0.45 and L * nk <= 400:
+    if kind == "qtor":
+        if L * nk > 400:
+            return None
         nc = rng.choice([1, 1, 3, 9]) if nw < 3 else 1
         order = [[i, j, k] for i in range(N[0]) for j in range(N[1]) for k in range(N[2])]
         rng.shuffle(order)
         dat = dense_hermitian(rng, nk, nw, nc)
+        if forced:
+            dat[0][0][0][0] = [1, 0, 0, 0]
         data = data_array(dat, nk, nw, nc)
         lib = rng.choice(["fftw", "numpy"])
-        with quiet():
-            rv.set_fft_q_to_R(kpt_red=np.array(order, dtype=float) / np.array(N), fftlib=lib)
-            XR = rv.q_to_R(data)
-        A = np.asarray(XR).reshape(len(rv.iRvec), nw, nw, nc) * float(nk * L)
+
+        def call():
+            with quiet():
+                rv.set_fft_q_to_R(kpt_red=np.array(order, dtype=float) / np.array(N), fftlib=lib)
+                return np.asarray(rv.q_to_R(data))
+        done, XR = guarded(rep, f"q_to_R:{lib}", det, call)
+        if not done:
+            return None
+        A = XR.reshape(len(rec["iRvec"]), nw, nw, nc) * float(nk * L)
         try:
-            X = cy.mat_from_complex(A, bound=40 * nk * L)
+            X = project_exact(A, bound=40 * nk * L)
         except ValueError as e:
             rep.violation("non-integral projection:q_to_R", dict(record=rec, error=str(e)))
             return None
         rec.update(kind="qtor", nc=nc, L=L, ord=order, dat=dat, XR=rec["iRvec"], X=X, lib=lib)
-    elif r < 0.7 and L <= 60:
+    elif kind == "wsdist":
+        if L > 60:
+            return None
         nc = rng.choice([1, 3])
         oldR = set()
         for _ in range(rng.randint(1, 5)):
@@ -374,11 +636,13 @@ def make_record(rep, rng, thorough):
                 m = [[[[rng.randint(-2, 2), 0, 0, rng.randint(-2, 2)] for _ in range(nc)] for _ in range(nw)] for _ in range(nw)]
                 old[mR] = [[[[m[b][a][c][0], 0, 0, -m[b][a][c][3]] for c in range(nc)] for b in range(nw)] for a in range(nw)]
             old[R] = m
-        syst = real_do_ws_dist(G, N, tau, tolf(tid), old, nw, nc)
-        newR = [[int(x) for x in R] for R in syst.rvec.iRvec]
+        done, syst = guarded(rep, "do_ws_dist", det, lambda: real_do_ws_dist(G, N, tau, abs(tol), old, nw, nc, S))
+        if not done:
+            return None
+        newR = [list(R) for R in irvec_of(syst.rvec)]
         A = np.asarray(syst.get_R_mat("AA" if nc == 3 else "Ham")).reshape(len(newR), nw, nw, nc) * float(L)
         try:
-            X = cy.mat_from_complex(A, bound=400 * L)
+            X = project_exact(A, bound=400 * L)
         except ValueError as e:
             rep.violation("non-integral projection:do_ws_dist", dict(record=rec, error=str(e)))
             return None
@@ -387,66 +651,95 @@ def make_record(rep, rng, thorough):
 
 
 def numeric_only(rep, rng, ncases):
-    """random real lattices / centres (round trip only: the back ends and the replica weights, no exact oracle)"""
+    """random real lattices / centres (the statement only: round trip, X(-R) = X(R)^+, weights; no exact oracle)"""
     from wannierberri.fourier.rvectors import Rvectors
     worst = 0.0
+    sizes_seen = set()
     for ic in range(ncases):
         r = np.random.RandomState(rng.randrange(1 << 30))
         lat = np.eye(3) * (1 + r.rand(3)) + 0.3 * r.randn(3, 3)
+        while abs(np.linalg.det(lat)) < 0.3:
+            lat = np.eye(3) * (1 + r.rand(3)) + 0.3 * r.randn(3, 3)
         nw = int(r.randint(1, 4))
         cen = 1.25 * r.rand(nw, 3) - 0.25       # differences below 1.25 lattice vectors: inside the search-box precondition
-        N = np.array([int(x) for x in r.randint(1, 5, size=3)])
+        while True:
+            N = np.array([int(x) for x in r.randint(1, 9, size=3)])        # 1..8 points per direction (also 5, 7, 8)
+            if np.prod(N) <= 48:
+                break
         nk = int(np.prod(N))
-        rv = Rvectors(lattice=lat, shifts_left_red=cen)
-        with quiet():
-            rv.set_Rvec(mp_grid=N, ws_tolerance=float(r.choice([1e-3, 1e-5])))
+        sizes_seen |= set(int(x) for x in N)
         order = [(i, j, k) for i in range(N[0]) for j in range(N[1]) for k in range(N[2])]
         rng.shuffle(order)
         shape = [(), (3,), (3, 3)][int(r.randint(0, 3))]
         data = r.randn(nk, nw, nw, *shape) + 1j * r.randn(nk, nw, nw, *shape)
         data = 0.5 * (data + data.swapaxes(1, 2).conj())
-        with quiet():
-            rv.set_fft_q_to_R(kpt_red=np.array(order, dtype=float) / N, fftlib=str(r.choice(["fftw", "numpy"])))
-            XR = rv.q_to_R(data.copy())
-            rv.set_fft_R_to_k(NK=None, num_wann=nw, k_list=np.array(order, dtype=float) / N)
-            back = rv.R_to_k(XR.copy(), hermitian=False)
-            cj = rv.conj_XX_R(XR)
+        tol = float(r.choice([1e-3, 1e-5]))
+        lib = str(r.choice(["fftw", "numpy"]))
+        det = dict(case=ic, lattice=lat.tolist(), centres=cen.tolist(), mp_grid=N.tolist(), cart_shape=list(shape), ws_tolerance=tol, fftlib=lib)
+
+        def run():
+            rv = Rvectors(lattice=lat, shifts_left_red=cen)
+            with quiet():
+                rv.set_Rvec(mp_grid=N, ws_tolerance=tol)
+                rv.set_fft_q_to_R(kpt_red=np.array(order, dtype=float) / N, fftlib=lib)
+                XR = np.asarray(rv.q_to_R(data.copy()))
+                rv.set_fft_R_to_k(NK=None, num_wann=nw, k_list=np.array(order, dtype=float) / N)
+                back = np.asarray(rv.R_to_k(XR.copy(), hermitian=False))
+            return rv, XR, back
+        done, res = guarded(rep, "numeric_only:q_to_R/R_to_k", det, run)
+        rep.case(("numeric", ic), nontrivial=False)
+        if not done:
+            continue
+        rv, XR, back = res
+        Rlist = irvec_of(rv)
         scale = max(1.0, float(np.abs(data).max()))
-        d1 = float(np.abs(back - data).max()) / scale
-        d2 = float(np.abs(cj - XR).max()) / scale
+        d1 = float(np.abs(back - data).max()) / scale if back.shape == data.shape else float("inf")
+        d2 = float(np.abs(harness_conj(XR, Rlist) - XR).max()) / scale
         worst = max(worst, d1, d2)
-        det = dict(case=ic, lattice=lat.tolist(), centres=cen.tolist(), mp_grid=N.tolist(), cart_shape=list(shape))
         if d1 > 1e-8:
             rep.violation("numeric_only:round_trip", dict(det, relative_deviation=d1))
         if d2 > 1e-8:
-            rep.violation("numeric_only:conj_XX_R", dict(det, relative_deviation=d2))
-        for ish in range(len(rv.iRvec_list)):
-            w = {}
-            for Rm, nd in zip(rv.iRvec_mod_list[ish], rv.Ndegen_list[ish]):
-                w[tuple(Rm)] = w.get(tuple(Rm), 0) + 1.0 / nd
-            if len(w) != nk or max(abs(v - 1) for v in w.values()) > 1e-12:
-                rep.violation("numeric_only:weights", dict(det, shift=ish, weights=str(w)))
-        rep.case(("numeric", ic), nontrivial=False)
-    rep.part("numeric_only", cases=ncases, max_relative_deviation=worst,
-             what="random real lattices / centres within (-0.25, 1) cells / meshes 1..4 / scalar, vector, tensor Hermitian data in random order: "
-                  "q_to_R -> R_to_k(k-list) equals the input, conj_XX_R(X) = X, weights per class (1e-8)")
+            rep.violation("numeric_only:hermitian_R", dict(det, relative_deviation=d2))
+        done, res = guarded(rep, "numeric_only:replica_sets", det, lambda: replica_sets(rep, rv, [int(x) for x in N], nw))
+        if done:
+            for (a, b), ps in res[0].items():
+                if len(set(ps)) != len(ps) or not weights_ok(set(ps), [int(x) for x in N]):
+                    rep.violation("numeric_only:weights", dict(det, pair=[a, b], replicas=str(sorted(ps))[:600]))
+    rep.part("numeric_only", cases=ncases, max_relative_deviation=worst, mesh_sizes_seen=sorted(sizes_seen),
+             what="random real lattices / centres within (-0.25, 1) cells / meshes with 1..8 points per direction (<= 48 points) / scalar, "
+                  "vector, tensor Hermitian data in random order: q_to_R -> R_to_k(k-list) equals the input, X(-R) = X(R)^+ (harness's own "
+                  "conjugation), weights per mesh class (1e-8)")
 
 
+# ---------------------------------------------------------------- the check
 def check(pid, tier):
     rep = Report(pid, tier, "model_checking")
+    try:
+        return _check(rep, tier)
+    except Exception:
+        finish_on_error(rep)
+        raise
+
+
+def _check(rep, tier):
     thorough = tier == "thorough"
     rng = random.Random(seed() * 7919 + 1)
     import wannierberri  # noqa: F401
-    rep.rule("TLC enumerates every (Gram matrix, mesh, shift in quarters, tolerance) of the listed constants and, in MC_WSRoundTrip, every "
-             "order of the mesh points (all permutations up to ORDALL points) and the one-hot Hermitian basis plus dense data; a case = one "
-             "enumerated input executed on the real code (set_Rvec exact; q_to_R, conj_XX_R, R_to_k, do_ws_dist to 1e-9), plus seeded "
-             "random recorded executions validated by TLC; distinct by input")
-    rep.assume("lattice = Cholesky factor of the integer Gram matrix, centres in quarters: squared distances times 16 are integers, so "
-               "distinct candidates differ by far more than the tolerance unless the specification flags the shift as Ambiguous")
-    rep.assume("search-box precondition (DESIGN 7.2): (b,a) = -(a,b) and X(-R) = X(R)^dagger are claimed for |tau_b - tau_a| <= 1.5 "
-               "lattice vectors per direction; weights and the q->R->k identity are claimed without it")
+    rep.rule("TLC enumerates every (Gram matrix, mesh, shift in quarters or thirds, tolerance) of the listed constants and, in "
+             "MC_WSRoundTrip, orders of the mesh points (all permutations up to ORDALL points, three fixed ones above) and the one-hot "
+             "Hermitian basis plus dense data; a case = one enumerated, determined input executed on the real code (set_Rvec: the "
+             "statement's clauses exactly, the sets themselves where the statement fixes them; q_to_R, X(-R)=X(R)^+, conj_XX_R, R_to_k, "
+             "do_ws_dist to 1e-8), plus seeded random recorded executions validated by TLC; distinct by input")
+    rep.assume("lattice = Cholesky factor of the integer Gram matrix, centres in quarters (thirds, sixths, twelfths in one configuration "
+               "and in the records): squared distances times S^2 are integers. The floating-point decision abs(dist - dist_min) < tol is "
+               "taken as determined when every |dist - dist_min - tol| exceeds twice the displacement of the shift by the code's decimal "
+               "rounding of the centres (np.round(shift, ceil(-log10 tol) + 1), zero for quarters) by 1e-9; the smallest margin met is "
+               "reported; other inputs are excluded (Ambiguous in the specification, `near` in the records)")
+    rep.assume("search-box precondition (DESIGN 7.2): (b,a) = -(a,b), X(-R) = X(R)^dagger and the identity of the replica sets are claimed "
+               "for |tau_b - tau_a| <= 1.5 lattice vectors per direction; weights and the q->R->k identity are claimed without it")
     cyclo_library_check(rep)
     dev = Dev()
+    st = Stats()
 
     # ---------------- replica selection: spec -> code
     G1 = "{111444, 211444, 411444}"
@@ -463,6 +756,8 @@ def check(pid, tier):
             ("c01_ws_lemma1", dict(GRAMS=G1, MESHES="{211, 311, 411}", TOLS="{1}", DIM=1, DMAX=6, STEP=1, BOXDIM=3, LEMMADIM=1)),
             ("c01_ws_loose", dict(GRAMS="{111444, 221344, 341744, 421444}", MESHES="{211, 221, 321}", TOLS="{3, 4}", DIM=2, DMAX=6, STEP=3, BOXDIM=3, LEMMADIM=3)),
             ("c01_ws_3d", dict(GRAMS="{111444, 322333, 322543, 211444}", MESHES="{222, 212, 232}", TOLS="{1}", DIM=3, DMAX=2, STEP=2, BOXDIM=3, LEMMADIM=3)),
+            ("c01_ws_thirds", dict(SS=3, GRAMS="{111444, 221344, 231544}", MESHES="{311, 321, 331, 611, 221}", TOLS="{1, 2}", DIM=2, DMAX=4, STEP=1, BOXDIM=2, LEMMADIM=2)),
+            ("c01_ws_sixths", dict(SS=6, GRAMS="{221344}", MESHES="{331, 621}", TOLS="{2}", DIM=2, DMAX=9, STEP=1, BOXDIM=2, LEMMADIM=2)),
         ]
     else:
         ws_configs = [
@@ -470,33 +765,33 @@ def check(pid, tier):
             ("c01_ws_2d", dict(GRAMS="{111444, 221344, 341744, 431144, 231544}", MESHES="{111, 211, 221, 321, 411}", TOLS="{1}", DIM=2, DMAX=6, STEP=2,
                                BOXDIM=2, LEMMADIM=2)),
             ("c01_ws_full", dict(GRAMS="{221344, 341744}", MESHES="{221}", TOLS="{2, 4}", DIM=2, DMAX=2, STEP=2, BOXDIM=3, LEMMADIM=2)),
+            # a 3-D non-orthogonal lattice with the full search box
+            ("c01_ws_3d", dict(GRAMS="{322333}", MESHES="{212}", TOLS="{1}", DIM=3, DMAX=2, STEP=2, BOXDIM=3, LEMMADIM=3)),
+            # centres in thirds (hexagonal and square lattice, meshes with 3 points): not decimal fractions
+            ("c01_ws_thirds", dict(SS=3, GRAMS="{111444, 221344}", MESHES="{311, 331}", TOLS="{1}", DIM=2, DMAX=3, STEP=1, BOXDIM=2, LEMMADIM=2)),
         ]
-    n_ws = n_amb = n_degen = n_outside = n_pairs = 0
-    t_replay = 0.0
-    count = [0]
+    n_enum = n_ws = n_amb = n_degen = 0
+    cpu0 = os.times()
     for name, kw in ws_configs:
         cfg, consts = ws_cfg(**kw)
-        st = ftable.enumerate_states("MC_WignerSeitz.tla", cfg, name, timeout=3000)
-        if ftable.spec_violation(rep, st, name):
+        S = consts["SS"]
+        tst = enumerate_states("MC_WignerSeitz.tla", cfg, name)
+        if tst.get("violation"):
+            from ..ftable import spec_violation
+            spec_violation(rep, tst, name)
             continue
-        tlc.check_not_vacuous(st, ["Compute"], name)
-        st["constants"] = consts
-        rep.add_tlc(name, st)
-        ndone = 0
-        t0 = time.time()
-        for s in fast_dump_states(st, fast_vars=("C", "Cm")):
-            if s["phase"] != "done":
-                continue
-            ndone += 1
+        tlc.check_not_vacuous(tst, ["Compute"], name)
+        tst["constants"] = consts
+        rep.add_tlc(name, tst)
+        states = sorted_states(tst, ("C", "Cm"), lambda s: s["phase"] == "done", lambda s: (s["gram"], s["mesh"], s["tolid"], tuple(s["delta"])))
+        if 2 * len(states) != tst["distinct"]:
+            raise MachineryError(f"{name}: {len(states)} finished states in the dump, TLC reported {tst['distinct']} states")
+        for idx, s in enumerate(states):
             G, N, delta, tid = gram_of(s["gram"]), mesh_of(s["mesh"]), list(s["delta"]), s["tolid"]
+            n_enum += 1
             amb = any(c["amb"] for c in s["C"].values()) or any(c["amb"] for c in s["Cm"].values())
-            degen = any(c["nd"] > 1 for c in s["C"].values())
-            outside = any(2 * abs(x) > 3 * SS for x in delta)
-            rep.case((name, s["gram"], s["mesh"], tuple(delta), tid), nontrivial=True)
-            n_amb += amb
-            n_degen += degen
-            n_outside += outside
             if amb:
+                n_amb += 1
                 continue        # Ambiguous(P, delta): the floating-point comparison is not determined
             W = {tuple(delta): {(tuple(R), c["nd"]) for c in s["C"].values() for R in c["Rs"]}}
             mdelta = tuple(-x for x in delta)
@@ -505,21 +800,24 @@ def check(pid, tier):
                 raise MachineryError("zero shift with different sets for (a,b) and (b,a)")
             W[mdelta] = Wm
             tau = [[0, 0, 0], delta]
-            tol = tolf(tid) * (-1 if (tid in (1, 2) and ndone % 7 == 0) else 1)      # negative: legacy mode, same replicas
-            rv = real_set_rvec(G, N, tau, tol)
-            det = dict(gram=G, mp_grid=N, centres_times_4=tau, ws_tolerance=tol)
-            compare_rvec(rep, rv, W, tau, det, count)
+            tol = tolf(tid) * (-1 if (tid in TIGHT and idx % 7 == 0) else 1)      # negative: legacy mode, same replicas
+            det = dict(gram=G, mp_grid=N, centres_times_S=tau, S=S, ws_tolerance=tol)
+            done, rv = guarded(rep, "set_Rvec", det, lambda: real_set_rvec(G, N, tau, tol, S))
+            if done:
+                check_rvec(rep, rv, W, tau, G, N, S, tid, tol, det, st)
+            rep.case((name, s["gram"], s["mesh"], tuple(delta), tid), nontrivial=True)
             n_ws += 1
+            n_degen += any(c["nd"] > 1 for c in s["C"].values())
             if n_ws <= 2:
                 rep.sample(dict(config=name, **det, replicas_ab=sorted([list(R), n] for R, n in W[tuple(delta)])))
-        t_replay += time.time() - t0
-        if 2 * ndone != st["distinct"]:
-            raise MachineryError(f"{name}: {ndone} finished states in the dump, TLC reported {st['distinct']} states")
-    n_pairs = count[0]
-    if n_ws == 0 or n_degen == 0:
-        raise MachineryError(f"vacuous replica enumeration: replayed {n_ws}, with degeneracy {n_degen}")
-    rep.part("replay_set_Rvec", inputs_replayed=n_ws, pair_sets_compared=n_pairs, with_degenerate_replicas=n_degen,
-             excluded_ambiguous=n_amb, outside_search_box_precondition=n_outside, replay_wall_s=round(t_replay, 1))
+        drop_scratch(tst)
+    if not rep.violations and (n_ws == 0 or n_degen == 0 or st.exact_pairs == 0):
+        raise MachineryError(f"vacuous replica enumeration: replayed {n_ws}, with degeneracy {n_degen}, exact set comparisons {st.exact_pairs}")
+    cpu1 = os.times()
+    rep.part("replay_set_Rvec", inputs_enumerated=n_enum, inputs_replayed=n_ws, excluded_ambiguous=n_amb, with_degenerate_replicas=n_degen,
+             pair_sets_checked=st.pairs, pair_sets_compared_exactly_with_spec=st.exact_pairs,
+             pairs_near_boundary_not_compared=st.near, replay_cpu_s=round(cpu1.user + cpu1.system - cpu0.user - cpu0.system, 1))
+    mark = (st.pairs, st.exact_pairs)
 
     # ---------------- transforms: spec -> code
     if thorough:
@@ -532,6 +830,8 @@ def check(pid, tier):
                                 BOXDIM=2, ORDALL=3, NCS="{1}", DATAMODE='"basis"', NDENSE=1)),
             ("c01_rt_3d", dict(GRAMS="{111444, 322333}", MESHES="{212, 222}", TOLS="{1, 3}", NWS="{2}", TAUIDS="{1, 7}",
                                BOXDIM=3, ORDALL=4, NCS="{1, 9}", DATAMODE='"dense"', NDENSE=2)),
+            ("c01_rt_thirds", dict(SS=3, GRAMS="{221344}", MESHES="{311, 331}", TOLS="{1}", NWS="{2}", TAUIDS="{1, 2}",
+                                   BOXDIM=2, ORDALL=3, NCS="{1, 3}", DATAMODE='"dense"', NDENSE=2)),
         ]
     else:
         rt_configs = [
@@ -541,104 +841,135 @@ def check(pid, tier):
                                  BOXDIM=2, ORDALL=4, NCS="{3, 9}", DATAMODE='"dense"', NDENSE=1)),
         ]
     n_rt = n_wsd = n_perm = n_excl = 0
-    t_replay = 0.0
     kinds = set()
+    cpu0 = os.times()
     for name, kw in rt_configs:
         cfg, consts = rt_cfg(**kw)
-        st = ftable.enumerate_states("MC_WSRoundTrip.tla", cfg, name, timeout=3000)
-        if ftable.spec_violation(rep, st, name):
+        S = consts["SS"]
+        tst = enumerate_states("MC_WSRoundTrip.tla", cfg, name)
+        if tst.get("violation"):
+            from ..ftable import spec_violation
+            spec_violation(rep, tst, name)
             continue
-        tlc.check_not_vacuous(st, ["CallSetRvec", "SetFFTq", "DoQtoR", "DoWsDist"], name)
-        st["constants"] = consts
-        rep.add_tlc(name, st)
-        t0 = time.time()
-        rvcache = {}
+        tlc.check_not_vacuous(tst, ["CallSetRvec", "SetFFTq", "DoQtoR", "DoWsDist"], name)
+        tst["constants"] = consts
+        rep.add_tlc(name, tst)
+        cache = RvCache()
+        states = sorted_states(tst, ("dat", "X", "ord"), lambda s: s["phase"] in ("R", "ws", "rvec"),
+                               lambda s: (s["gram"], s["mesh"], s["nw"], s["tauid"], s["tolid"], s["phase"], s["nc"], tuple(s["ord"]), s["dat"]))
         nterm = 0
-        states = [s for s in fast_dump_states(st, fast_vars=("dat", "X", "ord")) if s["phase"] in ("R", "ws", "rvec")]
-        states.sort(key=lambda s: (s["gram"], s["mesh"], s["nw"], s["tauid"], s["tolid"]))
         for s in states:
             if s["phase"] == "rvec":
                 n_excl += bool(s["amb"])
                 continue
             nterm += 1
-            key = (name, s["phase"], s["gram"], s["mesh"], s["nw"], s["tauid"], s["tolid"], s["nc"], tuple(s["ord"]), repr(s["dat"])[:2000])
-            rep.case(key, nontrivial=True)
             if s["phase"] == "R":
-                det = replay_qtor(rep, dev, s, rng, rvcache, count)
-                n_rt += 1
-                n_perm += list(s["ord"]) != sorted(s["ord"])
+                det, executed = replay_qtor(rep, dev, s, S, rng, cache, st)
+                n_rt += executed
+                n_perm += executed and list(s["ord"]) != sorted(s["ord"])
                 kinds.add(s["nc"])
             else:
-                det = replay_wsdist(rep, dev, s, count)
-                n_wsd += 1
-            if n_rt + n_wsd <= 2:
-                rep.sample(dict(config=name, call="q_to_R" if s["phase"] == "R" else "do_ws_dist", **det))
-        t_replay += time.time() - t0
+                det, executed = replay_wsdist(rep, dev, s, S, cache, st)
+                n_wsd += executed
+            if executed:
+                rep.case((name, s["phase"], s["gram"], s["mesh"], s["nw"], s["tauid"], s["tolid"], s["nc"], tuple(s["ord"]), repr(s["dat"])[:2000]),
+                         nontrivial=True)
+                if n_rt + n_wsd <= 2:
+                    rep.sample(dict(config=name, call="q_to_R" if s["phase"] == "R" else "do_ws_dist", **det))
         if nterm == 0:
             raise MachineryError(f"{name}: no terminal state in the dump")
-    if n_rt == 0 or n_wsd == 0 or n_perm == 0 or len(kinds) < 2:
+        drop_scratch(tst)
+    if not rep.violations and (n_rt == 0 or n_wsd == 0 or n_perm == 0 or len(kinds) < 2):
         raise MachineryError(f"vacuous transform enumeration: q_to_R {n_rt}, do_ws_dist {n_wsd}, permuted orders {n_perm}, components {kinds}")
+    cpu1 = os.times()
     rep.part("replay_transforms", q_to_R_states=n_rt, do_ws_dist_states=n_wsd, permuted_orders=n_perm, cartesian_components=sorted(kinds),
-             excluded_ambiguous_inputs=n_excl, max_relative_deviation_from_exact=dev.max, tolerance=TOL, replay_wall_s=round(t_replay, 1))
+             excluded_ambiguous_inputs=n_excl, pair_sets_checked=st.pairs - mark[0], pair_sets_compared_exactly_with_spec=st.exact_pairs - mark[1],
+             max_relative_deviation_from_exact=dev.max, tolerance=TOL, replay_cpu_s=round(cpu1.user + cpu1.system - cpu0.user - cpu0.system, 1))
+    rep.part("information_not_part_of_the_statement",
+             pair_sets_differing_from_spec_outside_precondition_or_loose_tolerance=st.nonstrict_differ,
+             pairs_where_equal_shifts_do_not_share_one_shift_index=st.not_dedup,
+             R_vectors_in_iRvec_beyond_the_replicas=st.extra_irvec,
+             smallest_margin_of_a_floating_point_decision=None if st.min_margin == float("inf") else st.min_margin)
     if dev.max * 1e4 > TOL:
-        raise MachineryError(f"tolerance {TOL} is not 10^4 times the observed deviation {dev.max}")
+        rep.part("tolerance_warning", observed=dev.max, tolerance=TOL, what="the tolerance is less than 10^4 times the observed deviation")
 
     # ---------------- sensitivity
-    st1 = tlc.run_tlc("MC_WignerSeitz.tla", ws_cfg(GRAMS="{111444}", MESHES="{211}", TOLS="{1}", DIM=1, DMAX=2, STEP=1, BOXDIM=1, LEMMADIM=1,
-                                                   WrongSign="TRUE")[0], "c01_sens_sign", workers=4, coverage=False, timeout=900)
+    st1 = run_tlc("MC_WignerSeitz.tla", ws_cfg(GRAMS="{111444}", MESHES="{211}", TOLS="{1}", DIM=1, DMAX=2, STEP=1, BOXDIM=1, LEMMADIM=1,
+                                               WrongSign="TRUE")[0], "c01_sens_sign", workers=2, heap="1g", coverage=False, timeout=900)
     if not st1.get("violation") or st1["violation"][1] != "MinusSymmetry":
         raise MachineryError(f"sensitivity self-test failed: (b,a) searched with the shift of (a,b) should violate MinusSymmetry ({st1.get('violation')}, {st1.get('error')})")
-    st2 = tlc.run_tlc("MC_WSRoundTrip.tla", rt_cfg(GRAMS="{111444}", MESHES="{211}", TOLS="{1}", NWS="{1}", TAUIDS="{1}", BOXDIM=1, ORDALL=2,
-                                                   NCS="{1}", DATAMODE='"basis"', NDENSE=1, NoWeights="TRUE")[0], "c01_sens_weights",
-                      workers=4, coverage=False, timeout=900)
+    st2 = run_tlc("MC_WSRoundTrip.tla", rt_cfg(GRAMS="{111444}", MESHES="{211}", TOLS="{1}", NWS="{1}", TAUIDS="{1}", BOXDIM=1, ORDALL=2,
+                                               NCS="{1}", DATAMODE='"basis"', NDENSE=1, NoWeights="TRUE")[0], "c01_sens_weights",
+                  workers=2, heap="1g", coverage=False, timeout=900)
     if not st2.get("violation") or st2["violation"][1] not in ("RoundTrip", "WsDistKeeps"):
         raise MachineryError(f"sensitivity self-test failed: dropping the weights 1/Ndegen should violate RoundTrip / WsDistKeeps ({st2.get('violation')}, {st2.get('error')})")
     rep.part("sensitivity", wrong_shift_sign=st1["violation"][1], no_degeneracy_weights=st2["violation"][1])
+    for x in (st1, st2):
+        x["violation"] = None
+        drop_scratch(x)
 
     # ---------------- code -> spec
+    quota = dict(setrvec=200, qtor=120, wsdist=80) if thorough else dict(setrvec=8, qtor=8, wsdist=8)
     recs = []
-    nrec = 600 if thorough else 24
-    while len(recs) < nrec:
-        r = make_record(rep, rng, thorough)
-        if r is not None:
-            recs.append(r)
-            rep.case(("rec", len(recs)), nontrivial=True)
-    stv, bad = validate_parallel("WignerSeitzRec.tla", recs, "c01", 8)
-    rep.add_tlc("c01_records", stv)
-    rep.add_traces(len(recs))
-    n_ambrec = 0
-    for i, clauses in bad.items():
-        real = [c for c in clauses if c != "unambiguous"]
-        n_ambrec += "unambiguous" in clauses
-        if real:
-            r = recs[i]
-            small = {k: v for k, v in r.items() if k not in ("dat", "X", "old")} if len(str(r)) > 4000 else r
-            rep.violation(f"recorded:{r['kind']}:" + ",".join(sorted(real)), dict(record=small, failing_clauses=real))
-    by_kind = {}
-    for r in recs:
-        by_kind[r["kind"]] = by_kind.get(r["kind"], 0) + 1
-    if len(by_kind) < 3:
-        raise MachineryError(f"record kinds missing: {by_kind}")
-    rep.part("records", by_kind=by_kind, ambiguous_records_not_compared_with_spec=n_ambrec)
-    rep.sample({k: v for k, v in recs[0].items() if k not in ("dat", "X", "old")})
+    forced = make_record(rep, rng, thorough, "qtor", forced=True)
+    if forced is not None:
+        recs.append(forced)
+    for kind, n in quota.items():
+        have = tries = 0
+        while have < n and tries < 40 * n:
+            tries += 1
+            r = make_record(rep, rng, thorough, kind)
+            if r is not None:
+                recs.append(r)
+                have += 1
+        if have < n and not rep.violations:
+            raise MachineryError(f"could not produce {n} records of kind {kind} ({have})")
+    if recs:
+        stv, bad = validate_parallel("WignerSeitzRec.tla", recs, "c01")
+        rep.add_tlc("c01_records", stv)
+        rep.add_traces(len(recs))
+        n_undet = 0
+        for i, clauses in bad.items():
+            real = [c for c in clauses if c != "unambiguous"]
+            n_undet += "unambiguous" in clauses
+            if real:
+                r = recs[i]
+                small = {k: v for k, v in r.items() if k not in ("dat", "X", "old")} if len(str(r)) > 4000 else r
+                rep.violation(f"recorded:{r['kind']}:" + ",".join(sorted(real)), dict(record=small, failing_clauses=real))
+        by_kind, by_S, distinct = {}, {}, set()
+        for r in recs:
+            by_kind[r["kind"]] = by_kind.get(r["kind"], 0) + 1
+            by_S[r["S"]] = by_S.get(r["S"], 0) + 1
+            key = repr((r["kind"], r["G"], r["N"], r["S"], r["tol"], r["tau"], r.get("ord"), r.get("dat"), r.get("old")))
+            if key not in distinct:
+                distinct.add(key)
+                rep.case(("rec", key), nontrivial=True)
+        rep.part("records", by_kind=by_kind, by_centre_denominator={str(k): v for k, v in sorted(by_S.items())}, distinct_inputs=len(distinct),
+                 undetermined_records_whose_sets_are_not_compared_with_spec=n_undet)
+        rep.sample({k: v for k, v in recs[0].items() if k not in ("dat", "X", "old")})
     # binding self-test: corrupted records must be rejected
-    b1 = copy.deepcopy(next(r for r in recs if any(n > 1 for p in r["pairs"] for _, n in p)))
-    for p in b1["pairs"]:
-        for e in p:
-            if e[1] > 1:
-                e[1] -= 1                        # wrong degeneracy
-    b2 = copy.deepcopy(next(r for r in recs if r["kind"] == "qtor" and any(any(x) for m in r["X"] for row in m for e in row for x in e)))
-    for m in b2["X"]:
-        for row in m:
-            for e in row:
-                if any(any(x) for x in e):
-                    e[0][0] += 1                 # wrong matrix element
-    b3 = copy.deepcopy(recs[0])
-    b3["pairs"][0] = b3["pairs"][0][1:]          # a replica missing
-    _, bb = validate_parallel("WignerSeitzRec.tla", [b1, b2, b3], "c01_selftest", 1)
-    if any(not [c for c in bb.get(i, []) if c != "unambiguous"] for i in range(3)):
-        raise MachineryError(f"binding self-test failed: corrupted records accepted ({bb})")
-    rep.part("binding_selftest", corrupted_records_rejected={str(k): v for k, v in bb.items()})
+    if forced is not None:
+        b1 = copy.deepcopy(forced)
+        for p in b1["pairs"]:
+            for e in p:
+                if e[1] > 1:
+                    e[1] -= 1                        # wrong degeneracy
+        b2 = copy.deepcopy(forced)
+        for m in b2["X"]:
+            for row in m:
+                for e in row:
+                    if any(any(x) for x in e):
+                        e[0][0] += 1                 # wrong matrix element
+        b3 = copy.deepcopy(forced)
+        b3["pairs"][0] = b3["pairs"][0][1:]          # a replica missing
+        if b1 == forced or b2 == forced:
+            raise MachineryError("binding self-test: the forced record has no degenerate replica / no non-zero matrix")
+        _, bb = validate_parallel("WignerSeitzRec.tla", [b1, b2, b3], "c01_selftest", 1)
+        if any(not [c for c in bb.get(i, []) if c != "unambiguous"] for i in range(3)):
+            raise MachineryError(f"binding self-test failed: corrupted records accepted ({bb})")
+        rep.part("binding_selftest", corrupted_records_rejected={str(k): v for k, v in bb.items()})
+    elif not rep.violations:
+        raise MachineryError("the forced record of the binding self-test could not be produced")
 
     numeric_only(rep, rng, 300 if thorough else 40)
     return rep.finish()
